@@ -102,7 +102,7 @@ func (alloc *BitmapAllocator) setupPoolBitmaps() *kernel.Error {
 		// the start frame and round down to get the end frame
 		regionStartFrame := mm.Frame(((uintptr(region.PhysAddress) + pageSizeMinus1) & ^pageSizeMinus1) >> mm.PageShift)
 		regionEndFrame := mm.Frame((uintptr(region.PhysAddress+region.Length) & ^pageSizeMinus1)>>mm.PageShift) - 1
-		pageCount := uint32(regionEndFrame - regionStartFrame)
+		pageCount := regionPageCount(regionStartFrame, regionEndFrame)
 		alloc.totalPages += pageCount
 
 		// To represent the free page bitmap we need pageCount bits. Since our
@@ -145,11 +145,12 @@ func (alloc *BitmapAllocator) setupPoolBitmaps() *kernel.Error {
 
 		regionStartFrame := mm.Frame(((uintptr(region.PhysAddress) + pageSizeMinus1) & ^pageSizeMinus1) >> mm.PageShift)
 		regionEndFrame := mm.Frame((uintptr(region.PhysAddress+region.Length) & ^pageSizeMinus1)>>mm.PageShift) - 1
-		bitmapBytes := ((uintptr(regionEndFrame-regionStartFrame) + 63) &^ 63) >> 3
+		pageCount := regionPageCount(regionStartFrame, regionEndFrame)
+		bitmapBytes := ((uintptr(pageCount) + 63) &^ 63) >> 3
 
 		alloc.pools[poolIndex].startFrame = regionStartFrame
 		alloc.pools[poolIndex].endFrame = regionEndFrame
-		alloc.pools[poolIndex].freeCount = uint32(regionEndFrame - regionStartFrame + 1)
+		alloc.pools[poolIndex].freeCount = pageCount
 		alloc.pools[poolIndex].freeBitmapHdr.Len = int(bitmapBytes >> 3)
 		alloc.pools[poolIndex].freeBitmapHdr.Cap = alloc.pools[poolIndex].freeBitmapHdr.Len
 		alloc.pools[poolIndex].freeBitmapHdr.Data = bitmapStartAddr
@@ -161,6 +162,16 @@ func (alloc *BitmapAllocator) setupPoolBitmaps() *kernel.Error {
 	})
 
 	return nil
+}
+
+// regionPageCount returns the number of whole frames in the inclusive frame
+// range [startFrame, endFrame]; regions that do not contain a whole frame
+// (endFrame+1 <= startFrame) yield zero.
+func regionPageCount(startFrame, endFrame mm.Frame) uint32 {
+	if endFrame+1 <= startFrame {
+		return 0
+	}
+	return uint32(endFrame + 1 - startFrame)
 }
 
 // markFrame updates the reservation flag for the bitmap entry that corresponds
